@@ -725,7 +725,11 @@ register("C01",
           _c01_spellings, _c01_internal,
           # unit tier: the real importableFrom (internal-package rule) and unvendor against the model
           stream_part("C01", lambda tier: [("paths", "paths", ["-seed", seed(), "-n", 4000 if tier == "quick" else 60000])],
-                      nontrivial=lambda case, im: "importable" in case.get("raw", [""])[1:2] or "internal" in " ".join(case.get("raw", [])))])
+                      nontrivial=lambda case, im: "importable" in case.get("raw", [""])[1:2] or "internal" in " ".join(case.get("raw", []))),
+          # unit tier: the real unnameableType on random type trees (defined types of three packages, generic instances, every composite
+          # kind) against WireV.unnameable
+          stream_part("C01", lambda tier: [("nameable", "nameable", ["-seed", seed(), "-n", 8000 if tier == "quick" else 100000])],
+                      nontrivial=lambda case, im: case.get("op") == "nameable" and len(case.get("raw", [])) > 8)])
 
 
 def _wellformed_extra(rep, units, info):
